@@ -9,7 +9,10 @@ Inductive case :=
 | CFile (st : style) (fs : list feature)            (* the lines as data (dialect field unused) *)
         (raw : list str)                            (* the feature lines as the harness rendered them *)
         (cfg : icfg)
-        (mem file reopen reimport : result dbobs).
+        (mem file reopen reimport : result dbobs)
+| CRaw (raw : list str) (cfg : icfg)                 (* lines outside the style grammar: empty list items, empty attribute
+                                                       columns, doubled separators ...: the model of the import is the oracle *)
+       (mem file reopen : result dbobs).
 
 Definition canon_feature (st : style) (f : feature) : feature :=
   mkFeature (f_seqid f) (f_source f) (f_ftype f) (f_start f) (f_end f) (f_score f) (f_strand f) (f_frame f)
@@ -53,5 +56,10 @@ Definition verdict (c : case) : Z :=
                         then strs_match raw mem && strs_match raw file && strs_match raw reopen else true) in
         if tie && spec then V_OK else V_BAD
       else V_OUT
+    end
+  | CRaw raw cfg mem file reopen =>
+    match import_model isword cfg raw with
+    | Err _ => V_OUT
+    | Ok (D, ms) => if db_matches D ms mem && db_matches D ms file && db_matches D ms reopen then V_OK else V_BAD
     end
   end.
